@@ -69,3 +69,5 @@ def replay(ctx, payload):
     real = R.real_remap(inp["input"], inp["ptx"], inp["bpt"])
     msgs = oracle(inp, real)
     return {"fails": bool(msgs), "oracle": msgs, "real": real}
+
+LEVEL_NOTE = LEVEL_NOTE + " NEW: `haplotig_removals_eq` / `info_record_fields` (Properties/C11Info.lean) over the CLI model: the yaml's manual_haplotig_removals = number of scaffolds of the haplotig file in all three naming branches; tie: yaml parsed back and compared with the model's info record on every CLI case"
